@@ -363,12 +363,14 @@ func (c *Connection) Retire(ac *AsyncCall, err error) {
 
 // Abandon begins closing the connection like Close (no new calls are started or
 // accepted), but instead of waiting for the outgoing calls that are still in
-// flight it reports err as their terminal error. It does not wait; follow it
-// with Close.
+// flight it reports err as their terminal error, and it cancels the handlers of
+// the incoming calls that are still running. It does not wait; follow it with
+// Close.
 //
 // It is meant for a peer that is known to be unresponsive: responses that will
 // never arrive would otherwise keep Close waiting for as long as the callers'
-// contexts live.
+// contexts live, and so would handlers that work until their request is
+// cancelled, which such a peer will never do.
 func (c *Connection) Abandon(err error) {
 	c.updateInFlight(func(s *inFlightState) {
 		s.connClosing = true
@@ -376,6 +378,9 @@ func (c *Connection) Abandon(err error) {
 			ac.retire(&Response{ID: id, Error: err})
 		}
 		clear(s.outgoingCalls)
+		for _, r := range s.incomingByID {
+			r.cancel(err)
+		}
 	})
 }
 
